@@ -148,7 +148,11 @@ def grain_facets(run, core, pair):
                     okb = okb and z3.eq(z3.simplify(sub(S.zz(a))), z3.simplify(S.zz(b)))
                 else:
                     okb = okb and (a == b)
-            run.exact(f"{tag}/relative slip rates handed to the Schmid tensor == oracle's", fn, okb, "beta passed to _get_deformation_rate")
+            if okb:
+                run.exact(f"{tag}/relative slip rates handed to the Schmid tensor == oracle's", fn, True, "beta passed to _get_deformation_rate")
+            else:
+                run.undecided(f"{tag}/relative slip rates handed to the Schmid tensor", fn, "not syntactically the slip-rate contract's result: modular chain not applicable on this path")
+                continue
             G_t = _tensor_G(A, beta_o)
             lemma("schmid==oracle(tensor form)", cd, G_t)
             cso = [c for c in calls if c[0] == "softest"]
@@ -168,14 +172,17 @@ def grain_facets(run, core, pair):
             co = [c for c in calls if c[0] == "orient"][0]
             lemma("rotation==oracle", co, O.spin_rotation(A, L, G_t, gam))
             same = all(z3.eq(S.zz(a), S.zz(b)) for a, b in zip(np.asarray(dA, dtype=object).flat, np.asarray(co[2], dtype=object).flat))
-            run.exact(f"{tag}/returned rotation rate is the contract's result", fn, same, "result[0] is what _get_orientation_change returned")
+            if same:
+                run.exact(f"{tag}/returned rotation rate is the contract's result", fn, True, "result[0] is what _get_orientation_change returned")
+            else:
+                prove_entries(run, f"{tag}/returned rotation rate == contract's result", fn, H() + [sub(d) for d in co[3]], dA, co[2], replay=rp)
             ce = [c for c in calls if c[0] == "energy"][0]
             lemma("energy==oracle", (ce[0], ce[1], [ce[2]], ce[3]), [O.strain_energy(tau, beta_o, gam, p, n, lam)])
-            run.exact(f"{tag}/returned strain energy is the contract's result", fn, z3.eq(S.zz(En), S.zz(ce[2])), "result[1] is what _get_strain_energy returned")
+            run.prove(f"{tag}/returned strain energy is the contract's result", fn, H(), S.zz(En) == S.zz(ce[2]), replay=rp, concretise=conc)
         finally:
             E.Ctx.cur = None
     if nontrivial == 0:
-        run.checker_failures.append(f"grain[{name}]: no non-trivial path")
+        run.undecided(f"grain[{name}]/modular proof", fn, "no path on which the helper contracts apply (helpers inlined or renamed): decided by the bounded stand-in only")
 
 
 def _same(a, b, hyps):
